@@ -29,6 +29,9 @@ OneVerdict(r, e, vars, res) ==
            jd == PJet(T, TreeOfDump(res), Env(r, x), RPt(r))
        IN IF je.st # "jet" THEN "inconclusive: original " \o (IF je.st = "bad" THEN je.why ELSE "none")
           ELSE IF jd.st = "bad" /\ jd.why = "error value" THEN "bad:error-value-in-derivative"
+          \* conditions stay conditions: where the original is a number, a derivative that uses a comparison as a number
+          \* (it would evaluate to a boolean or an error value) is not the derivative of the selected branch
+          ELSE IF jd.st = "bad" /\ jd.why = "comparison used as number" THEN "bad:condition-used-as-number-in-derivative"
           ELSE IF jd.st # "jet" THEN "inconclusive: derivative " \o (IF jd.st = "bad" THEN jd.why ELSE "none")
           ELSE IF JDer(je.j) # Trunc(jd.j) THEN "bad:derivative"
           \* integers and floats mixed: where the original evaluates with integer coordinates and the derivative evaluates with
